@@ -19,6 +19,10 @@ BUILTINS = {'dict': dict, 'Exception': Exception, 'object': object}
 PKG = 'c6pk'
 MODNAMES = ['c6ma', 'c6mb', 'c6mc']
 PLACEHOLDER = 'pass'
+# how an attribute is assigned through the first parameter: plain, annotated, for target, with target, comprehension target
+ASSIGN_FORMS = ['plain'] * 9 + ['ann', 'ann', 'for', 'with', 'comp']
+ASSIGN_TEXT = {'plain': '%(p)s.%(a)s = %(v)d', 'ann': '%(p)s.%(a)s: int = %(v)d', 'for': 'for %(p)s.%(a)s in [%(v)d]: pass',
+               'with': 'with open(__file__) as %(p)s.%(a)s: pass', 'comp': '[0 for %(p)s.%(a)s in [%(v)d]]'}
 FORMS = ['class', 'inst', 'func', 'self', 'cls', 'module']
 
 
@@ -112,11 +116,11 @@ def gen_program(rng):
                 it['extra'] = rng.random() < 0.3 and it['kind'] == 'def' and it['name'] != '__init__'
                 n = rng.choice([0, 0, 1, 1, 2, 3]) if it['kind'] != 'desc' else rng.choice([0, 1])
                 it['assigns'] = [rng.choice(['i0', 'i1', 'i2', 'i3', 'a0', 'a1', 'm0', 'm1']) for _ in range(n)]
-                it['ann'] = [rng.random() < 0.15 for _ in range(n)]
+                it['ann'] = [rng.choice(ASSIGN_FORMS) for _ in range(n)]
             items.append(it)
         if not any(it['kind'] == 'def' for it in items):
             items.append({'kind': 'def', 'name': 'm%d' % rng.randrange(4), 'first': 'self', 'extra': False,
-                          'assigns': [rng.choice(['i0', 'i1', 'a0'])], 'ann': [False]})
+                          'assigns': [rng.choice(['i0', 'i1', 'a0'])], 'ann': ['plain']})
         if rng.random() < 0.5 and not any(it['kind'] == 'classmethod' for it in items):
             items.insert(rng.randrange(len(items) + 1), {'kind': 'classmethod', 'name': 'k0'})
         # a function rebound later in the same body is no method of the class: CPython can never run it, keep it silent
@@ -237,7 +241,9 @@ def render(prog, rng):
                     lines.append('        ' + PLACEHOLDER)
                     c['slots'].append(('self', len(lines), it['first']))
                     for a, ann in zip(it['assigns'], it['ann']):
-                        lines.append('        %s.%s%s = %d' % (it['first'], a, ': int' if ann else '', rng.randrange(100)))
+                        lines.append('        ' + ASSIGN_TEXT[ann] % {'p': it['first'], 'a': a, 'v': rng.randrange(100)})
+                        prog.setdefault('assign_forms', {})
+                        prog['assign_forms'][ann] = prog['assign_forms'].get(ann, 0) + 1
                         c['selfs'].append((a, _site(sites, m['rel'], len(lines))))
                     if k != 'def' or it['name'] != '__init__':
                         lines.append('        return 0')
@@ -443,6 +449,10 @@ def self_assigns(node):
                     tg = n.targets
                 elif isinstance(n, ast.AnnAssign) and n.value is not None:
                     tg = [n.target]
+                elif isinstance(n, (ast.For, ast.comprehension)):
+                    tg = [n.target]
+                elif isinstance(n, ast.With):
+                    tg = [i.optional_vars for i in n.items if i.optional_vars is not None]
                 for t in tg:
                     for e in ast.walk(t):
                         if isinstance(e, ast.Attribute) and isinstance(e.value, ast.Name) and e.value.id == p:
@@ -554,16 +564,6 @@ def satisfies(want, got):
     return bool(got[1]) and all(s in sites for s in got[1])
 
 
-# ----------------------------------------------------------------------------- known findings
-
-def classify(form, attr, want, got, selfassigned):
-    """deterministic class of an oracle failure (mirrors Witness/C06.lean)"""
-    if form == 'cls' and attr is not None and want is not None and want[0] == 'exact' and got[0] == 'ok' \
-            and got[1] and all(s in selfassigned for s in got[1]):
-        return 'cls-as-instance'
-    return 'other'
-
-
 # ----------------------------------------------------------------------------- one program
 
 def val_sites(prog, v):
@@ -630,8 +630,6 @@ def _check_program(check, supp, prog, stats, rng, max_loc, root):
         stats['distinct'].add((json.dumps(hier[cid], sort_keys=True), tuple(model_mro)))
         if len(rep['mro']) >= 2 and (c['selfs'] or any(prog['classes'][e['cls']]['selfs'] for e in rep['mro'] if 'cls' in e)):
             stats['nontrivial'].add((json.dumps(hier[cid], sort_keys=True), tuple(model_mro)))
-        selfassigned = sorted([list(prog['sites'][s])[0], list(prog['sites'][s])[1]]
-                              for e in rep['mro'] if 'cls' in e for _, s in prog['classes'][e['cls']]['selfs'])
         for fi, form in enumerate(FORMS):
             imp_form = rng.randrange(12)
             q = query_source(prog, cid, form, imp_form, '.|', stats)
@@ -647,7 +645,7 @@ def _check_program(check, supp, prog, stats, rng, max_loc, root):
                 if got[0] != 'ok' or not want <= set(got[1]):
                     check.fail('oracle module: proposals miss top-level names CPython has',
                                replay_dict(prog, spec, ckey, form, rel, text, 'assist', None, got,
-                                           sorted(want - set(got[1] if got[0] == 'ok' else [])), 'other'))
+                                           sorted(want - set(got[1] if got[0] == 'ok' else []))))
                 # go-to-definition on module.Class ends at the class statement
                 q2 = query_source(prog, cid, form, imp_form, '.%s|%s' % (c['name'][:1], c['name'][1:]))
                 got2 = supp.run(root, 'location', q2[0], q2[1])
@@ -655,9 +653,9 @@ def _check_program(check, supp, prog, stats, rng, max_loc, root):
                 site = [m['rel'], c['line']]
                 if got2[0] != 'ok' or not got2[1] or site not in got2[1]:
                     check.fail('oracle module: go-to-definition on module.Class misses the class statement',
-                               replay_dict(prog, spec, ckey, form, q2[0], q2[1], 'location', c['name'], got2, [site], 'other'))
+                               replay_dict(prog, spec, ckey, form, q2[0], q2[1], 'location', c['name'], got2, [site]))
                 continue
-            table = tables['cls'] if form == 'class' else tables['inst']   # supp binds `cls` to an instance
+            table = tables['cls'] if form in ('class', 'cls') else tables['inst']
             instance_like = form in ('inst', 'func', 'self')
             # ---- correspondence: proposals
             mkeys = sorted(table)
@@ -672,7 +670,7 @@ def _check_program(check, supp, prog, stats, rng, max_loc, root):
                 missing = sorted(names - set(got[1])) if got[0] == 'ok' else sorted(names)
                 if missing:
                     check.fail('oracle %s: proposals miss source-defined attributes Python finds' % form,
-                               replay_dict(prog, spec, ckey, form, rel, text, 'assist', None, got, missing, 'other'))
+                               replay_dict(prog, spec, ckey, form, rel, text, 'assist', None, got, missing))
             # ---- locations
             attrs = [x for x in mkeys if 'builtin' not in table[x]]
             stats['builtin_valued_skipped'] += len(mkeys) - len(attrs)
@@ -695,18 +693,16 @@ def _check_program(check, supp, prog, stats, rng, max_loc, root):
                                          % (ckey, form, x, got3, msites, q3[1], json.dumps(prog['files'])))
                 if dom and x in want and not satisfies(want[x], got3):
                     check.fail('oracle %s: go-to-definition on .%s is not the definition Python selects' % (form, x),
-                               replay_dict(prog, spec, ckey, form, q3[0], q3[1], 'location', x, got3, want[x],
-                                           classify(form, x, want[x], got3, selfassigned)))
+                               replay_dict(prog, spec, ckey, form, q3[0], q3[1], 'location', x, got3, want[x]))
                     stats['oracle_loc_fail'] += 1
                 elif dom and x in want and want[x] is not None:
                     stats['oracle_loc_ok'] += 1
 
 
-def replay_dict(prog, spec, ckey, form, rel, text, kind, attr, got, expected, cls):
+def replay_dict(prog, spec, ckey, form, rel, text, kind, attr, got, expected):
     src, pos = split_cursor(text)
     return {'files': prog['files'], 'oracle_spec': spec, 'class': ckey, 'form': form, 'query_file': rel,
-            'expression': text, 'cursor': list(pos), 'kind': kind, 'attr': attr, 'got': got, 'expected': expected,
-            'failure_class': cls}
+            'expression': text, 'cursor': list(pos), 'kind': kind, 'attr': attr, 'got': got, 'expected': expected}
 
 
 def _short(x, n=400):
@@ -728,10 +724,59 @@ def literal_probe(check, supp, stats):
             if got[0] != 'ok' or not want <= set(got[1]):
                 check.fail('oracle literal: proposals miss attributes of the literal',
                            {'files': {}, 'expression': text, 'cursor': list(split_cursor(text)[1]), 'kind': 'assist',
-                            'form': 'literal', 'got': _short(got), 'failure_class': 'other'})
+                            'form': 'literal', 'got': _short(got)})
     finally:
         shutil.rmtree(root, ignore_errors=True)
 
+
+
+# ----------------------------------------------------------------------------- cyclic hierarchies (guard)
+
+CYCLIC_FILES = {
+    'c6ma.py': 'from c6mb import B\nclass A(B):\n    a = 1\n    def m(self):\n        self.ai = 1\n',
+    'c6mb.py': 'from c6ma import A\nclass B(A):\n    b = 1\n    def m(self):\n        self.bi = 1\n',
+    'c6mc.py': 'def f():\n    return S\nclass S(f()):\n    s = 1\n    def m(self):\n        self.si = 1\n',
+}
+CYCLIC_SITES = [('c6ma.py', 3), ('c6ma.py', 4), ('c6ma.py', 5), ('c6mb.py', 3), ('c6mb.py', 4), ('c6mb.py', 5),
+                ('c6mc.py', 4), ('c6mc.py', 5), ('c6mc.py', 6)]
+CYCLIC_HIER = [
+    {'id': 0, 'bases': [{'src': 1}], 'body': [['a', 0], ['m', 1]], 'self': [['ai', 2]]},
+    {'id': 1, 'bases': [{'src': 0}], 'body': [['b', 3], ['m', 4]], 'self': [['bi', 5]]},
+    {'id': 2, 'bases': [{'src': 2}], 'body': [['s', 6], ['m', 7]], 'self': [['si', 8]]},
+]
+CYCLIC_CLASSES = [('c6ma', 'A'), ('c6mb', 'B'), ('c6mc', 'S')]
+
+
+def cyclic_stream(check, supp, stats):
+    """inheritance cycles (a circular import, a base computed by a call): the guarded tables of the model against
+    the real code, a fresh project per query; CPython cannot import these files, so no oracle"""
+    root = write_files(CYCLIC_FILES)
+    diffs = []
+    try:
+        replies = common.ask_driver([{'h': CYCLIC_HIER, 'c': i} for i in range(3)], exe='drv_attrs')
+        prog = {'sites': CYCLIC_SITES}
+        for (mod, name), rep in zip(CYCLIC_CLASSES, replies):
+            if rep['acyclic']:
+                diffs.append('%s: the model calls the hierarchy acyclic' % name)
+            for key, expr in (('cls', name), ('inst', name + '()')):
+                table = dict(rep[key])
+                text = 'from %s import %s\n\n%s.|\n' % (mod, name, expr)
+                got = supp.run(root, 'assist', 'c6q.py', text)
+                stats['evaluations'] += 1
+                stats['cyclic_queries'] += 1
+                if got != ('ok', sorted(table)):
+                    diffs.append('%s.| impl %r model %r' % (expr, got, sorted(table)))
+                for x in sorted(table):
+                    text = 'from %s import %s\n\n%s.%s|%s\n' % (mod, name, expr, x[:1], x[1:])
+                    got = supp.run(root, 'location', 'c6q.py', text)
+                    stats['evaluations'] += 1
+                    stats['cyclic_queries'] += 1
+                    if got != ('ok', val_sites(prog, table[x])):
+                        diffs.append('%s.%s impl %r model %r' % (expr, x, got, val_sites(prog, table[x])))
+    finally:
+        shutil.rmtree(root, ignore_errors=True)
+    check.oblige('correspondence cyclic hierarchies (guarded tables = supp, circular import and call-computed base)',
+                 not diffs, '; '.join(diffs[:4]) + (' files: ' + json.dumps(CYCLIC_FILES) if diffs else ''))
 
 
 # ----------------------------------------------------------------------------- the check
@@ -752,7 +797,7 @@ def fixed_override_prog():
 
     def d(name, assigns=(), first='self'):
         return {'kind': 'def', 'name': name, 'first': first, 'extra': False, 'assigns': list(assigns),
-                'ann': [False] * len(assigns)}
+                'ann': ['plain'] * len(assigns)}
     classes = [
         {'id': 0, 'name': 'C0', 'mod': 0, 'bases': [], 'items': [d('m0', ['i0']), {'kind': 'attr', 'name': 'a0'}, d('m1')]},
         {'id': 1, 'name': 'C1', 'mod': 0, 'bases': [('src', 0)], 'items': [d('m0'), {'kind': 'classmethod', 'name': 'k0'}]},
@@ -760,7 +805,7 @@ def fixed_override_prog():
         {'id': 3, 'name': 'C3', 'mod': 1, 'bases': [('src', 1), ('src', 2)], 'items': [d('m2', ['i2'], 'this')]},
         {'id': 4, 'name': 'C4', 'mod': 1, 'bases': [('src', 3), ('builtin', 'object')],
          'items': [d('__init__', ['i0']), {'kind': 'property', 'name': 'p0', 'first': 'self', 'extra': False,
-                                          'assigns': ['i3'], 'ann': [True]}]},
+                                          'assigns': ['i3'], 'ann': ['ann']}]},
     ]
     for c in classes:
         c['anc'], c['depth'] = set(), 1
@@ -775,22 +820,23 @@ def run(check):
     rng = check.rng
     check.prove(extra_targets=('drv_attrs',))
 
-    for k in check.known:
-        k['_matcher'] = (lambda cls: lambda what, replay: replay.get('failure_class') == cls)(k.get('class'))
-
     supp = Supp()
     stats = new_stats()
     literal_probe(check, supp, stats)
+    cyclic_stream(check, supp, stats)
     progs = [fixed_override_prog()]
     n_prog = 36 if quick else 200
     for _ in range(n_prog):
         progs.append(gen_program(rng))
     max_loc = 6 if quick else 30
     forms_used = {}
+    assign_forms = {}
     for prog in progs:
         check_program(check, supp, prog, stats, rng, max_loc)
         for k, v in prog.get('import_forms_used', {}).items():
             forms_used[k] = forms_used.get(k, 0) + v
+        for k, v in prog.get('assign_forms', {}).items():
+            assign_forms[k] = assign_forms.get(k, 0) + v
     for name, cnt in (('correspondence assist', 'corr_assist_diff'), ('correspondence location', 'corr_loc_diff'),
                       ('spec mro = CPython __mro__', 'mro_diff')):
         if stats[cnt] == 0:
@@ -808,9 +854,11 @@ def run(check):
     check.extra.update({
         'programs': len(progs), 'classes': stats['classes'], 'classes_in_domain(NoRepeatedAncestors)': stats['in_domain'],
         'classes_out_of_domain': stats['out_of_domain'], 'classes_cyclic': stats['cyclic'],
+        'cyclic_stream_queries': stats['cyclic_queries'],
         'distinct_classes': len(stats['distinct']),
         'queries_by_form': {f: stats['form_' + f] for f in FORMS},
         'import_forms_between_modules': forms_used,
+        'self_assignment_forms': assign_forms,
         'histograms(mro length, bases per class, depth)': {k[5:]: v for k, v in sorted(stats.items()) if k.startswith('hist_')},
         'import_forms_in_queries': {k[13:]: v for k, v in stats.items() if k.startswith('query_import_')},
         'mro_compared_with_cpython': stats['mro_compared'],
@@ -823,11 +871,12 @@ def run(check):
     check.assumptions += [
         'how an expression evaluates to a class / instance / module (EvalCtx.evaluate, imports, FuncScope.get_argument) is not '
         'modelled: every form is mapped to the class table or the instance table and validated by correspondence only',
-        'supp binds the first parameter of every function in a class body to an instance: `cls` is compared with the instance table '
-        '(open finding cls-as-instance)',
+        'the first parameter of a function in a class body is an instance, the class itself under @classmethod (compared with the '
+        'class table), nothing under @staticmethod (FuncScope.get_argument after 51a17f1)',
         'vars()/dir() of builtin bases are parameters of the model (computed in the harness process)',
-        'Acyclic: inheritance cycles (only constructible through circular imports or a call in the base list) make the real code '
-        'raise RecursionError; that is C08',
+        'Acyclic: inheritance cycles (only constructible through circular imports or a call in the base list) are cut by the '
+        'in-progress guard (modelled, C06_total); the cached partial tables of classes inside a cycle are not modelled, the cyclic '
+        'stream only has cycles in which no class is reached along two paths',
         'positions are compared as (file, line); columns belong to C11',
     ]
     check.trusted += ['the CPython oracle script in harness/c06.py (ast + vars + __mro__ + instance __dict__)',
